@@ -191,6 +191,7 @@ pub fn known_scenario() -> (Instr, Vec<Peer>, Vec<Ev>) {
 }
 
 pub fn run(ctx: &mut Ctx, rep: &mut Report) {
+    crate::script::MAP_FOLD_RECURSION.store(true, std::sync::atomic::Ordering::Relaxed); // recursive folds over maps (template 8): C13 classifies what they hit
     rep.rule = "case = one run of a simulated honest history of a stream template (2-4 writers via call/ap in seq/par positions on 3-5 peers into a stream or a stream map; local canon + observation call; stream folds with a visit call per value, \
         next in seq/par position, last instruction, guarded recursive appends (ap and call) inside the fold; new-scoped streams per iteration; nested folds) under random schedules with duplicated deliveries and \
         late/batched results, drained to quiescence, every 3rd small template under all delivery orders; plus 11 size-limit templates (1022/1023/1024 values from new / previous / current data, recursion) and scripts of \
